@@ -174,7 +174,7 @@ impl Prop for C19 {
         vec!["'Needed' buffer size is the size of the binary value (what output_size_needed reports for the parts).".into()]
     }
     fn cases(&self, tier: Tier) -> u32 {
-        tier.pick(3_000, 60_000)
+        tier.pick(30_000, 150_000)
     }
     fn workers(&self, _tier: Tier) -> usize {
         16
